@@ -26,13 +26,27 @@ NdSteps(it, steps, i, base) ==      \* base: offset of the option area inside th
                [] r[1] = "item" -> (IF o.r.k # "item" THEN {"ndp.expected_item:" \o o.r.k \o o.r.name}
                                     ELSE (IF o.r.name # NdKindName(r[2]) THEN {"ndp.option_kind"} ELSE {})
                                          \cup (IF o.r.bytes # r[3] THEN {"ndp.option_bytes"} ELSE {})
-                                         \cup (IF o.r.rg[2] # Len(r[3]) THEN {"ndp.option_len"} ELSE {}))
+                                         \cup (IF o.r.rg[2] # Len(r[3]) THEN {"ndp.option_len"} ELSE {})
+                                         \cup (IF o.r.tf # NdTyped(r[3]) THEN {"ndp.typed_fields:" \o o.r.name} ELSE {})
+                                         \cup (IF r[2] = 3 /\ o.r.re # NdPrefixNorm(r[3]) THEN {"ndp.prefix_information_struct"} ELSE {}))
                [] r[1] = "err" -> (IF o.r.k # "err" THEN {"ndp.expected_error:" \o o.r.k} ELSE IF <<o.r.name, o.r.t>> \notin r[2] THEN {"ndp.error_fields:" \o o.r.name} ELSE {}))
        \cup NdSteps(x[2], steps, i + 1, base)
 NdEnded(steps) == Len(steps) >= 3 /\ \A i \in (Len(steps) - 2)..Len(steps) : steps[i].r.k = "none"
 \* ranges of the yielded options are adjacent from the start of the area: no gap, no overlap
 RECURSIVE Tiled(_, _, _)
 Tiled(steps, i, pos) == IF i > Len(steps) \/ steps[i].r.k # "item" THEN TRUE ELSE steps[i].r.rg[1] = pos /\ Tiled(steps, i + 1, pos + steps[i].r.rg[2])
+
+RgOk(r, off, len) == r = <<off, len>> \/ (len = 0 /\ r[2] = 0)
+\* typed payload views behind the 8 byte header (payload slice accepted; k: message kind, fx: length of the fixed part)
+PvMism(e, b, n, k, fx) ==
+  LET v == e.pv  nd == HasOptions(k) IN
+  (IF ~RgOk(v.slice, 8, n - 8) THEN {"icmp6.payload_view_slice"} ELSE {})
+  \cup (IF v.fixed # (IF nd THEN Sub(b, 8, fx) ELSE <<>>) THEN {"icmp6.payload_fields:" \o k} ELSE {})
+  \cup (IF nd THEN (IF v.tp # Sub(b, 8, fx) \/ v.tp_len # fx \/ ~RgOk(v.tp_opts, 8 + fx, n - 8 - fx) THEN {"icmp6.to_payload:" \o k} ELSE {})
+        ELSE (IF v.tp_len # -1 THEN {"icmp6.to_payload_for_non_nd:" \o k} ELSE {}))
+  \cup (IF (IsErrorKind6(k) \/ k \in {"EchoRequest", "EchoReply"}) /\ ~RgOk(v.inv, 8, n - 8) THEN {"icmp6.invoking_packet_range:" \o k} ELSE {})
+  \cup (IF IsErrorKind6(k) /\ v.lax # 1 THEN {"icmp6.as_lax_ip_slice"} ELSE {})
+  \cup (IF v.alt # 1 THEN {"icmp6.type_based_entry_points_differ"} ELSE {})
 
 Icmp6Mism(e) ==
   LET b == e.bytes  n == Len(b) IN
@@ -42,9 +56,12 @@ Icmp6Mism(e) ==
        (IF e.kind # k THEN {"icmp6.kind:" \o e.kind \o "/" \o k} ELSE {}) \cup (IF e.norm # Norm6(b) THEN {"icmp6.fields:" \o k} ELSE {})
        \cup (IF e.pay # <<8, n - 8>> /\ ~(n = 8 /\ e.pay[2] = 0) THEN {"icmp6.payload_range"} ELSE {})
        \cup (IF e.hdr_same # 1 THEN {"icmp6.header_struct_differs"} ELSE {})
-       \cup (IF n - 8 < fx THEN (IF e.ps.k # "err" THEN {"icmp6.payload_slice_accepted_short"} ELSE IF e.ps.req # fx \/ e.ps.len # n - 8 THEN {"icmp6.payload_slice_len_error"} ELSE {})
+       \cup (IF e.tc # <<b[1], b[2], -1>> THEN {"icmp6.type_code_accessors"} ELSE {})
+       \cup (IF n - 8 < fx THEN (IF e.ps.k # "err" THEN {"icmp6.payload_slice_accepted_short"} ELSE IF e.ps.req # fx \/ e.ps.len # n - 8 THEN {"icmp6.payload_slice_len_error"}
+                                 ELSE IF e.pv.alt # -1 THEN {"icmp6.type_based_entry_points_accept_short"} ELSE {})
              ELSE (IF e.ps.k # "ok" THEN {"icmp6.payload_slice_rejected"}
                    ELSE (IF e.ps.name # (IF k = "Unknown" THEN "Raw" ELSE k) THEN {"icmp6.payload_kind:" \o e.ps.name} ELSE {})
+                        \cup PvMism(e, b, n, k, fx)
                         \cup (IF HasOptions(k) THEN
                                 (IF e.opts.has # 1 THEN {"icmp6.options_missing"}
                                  ELSE (IF e.opts.rg # <<8 + fx, n - 8 - fx>> /\ ~(n = 8 + fx /\ e.opts.rg[2] = 0) THEN {"icmp6.fixed_var_split"} ELSE {})
